@@ -75,3 +75,19 @@ impl From<BytesMut> for Bytes { #[verifier::external_body] fn from(b: BytesMut) 
 #[verifier::external_body] pub fn u64_from_be_bytes(b: [u8; 8]) -> (r: u64) ensures r == be64(b@) { unimplemented!() }
 pub broadcast proof fn subrange_full(s: Seq<u8>) ensures #[trigger] s.subrange(0, s.len() as int) == s { assert(s.subrange(0, s.len() as int) =~= s); }
 pub broadcast proof fn empty_prefix(s: Seq<u8>) ensures #[trigger] (Seq::<u8>::empty() + s) == s { assert(Seq::<u8>::empty() + s =~= s); }
+
+// bytes::Buf for &[u8] (bytes buf_impl.rs): reading through a `&mut &[u8]` advances the slice itself; same panic conditions
+pub trait VBufSlice: Sized {
+    spec fn rest(&self) -> Seq<u8>;
+    fn get_u64(&mut self) -> (r: u64) requires old(self).rest().len() >= 8 ensures r == be64(old(self).rest().subrange(0, 8)), final(self).rest() == old(self).rest().subrange(8, old(self).rest().len() as int);
+    fn get_u8(&mut self) -> (r: u8) requires old(self).rest().len() >= 1 ensures r == old(self).rest()[0], final(self).rest() == old(self).rest().subrange(1, old(self).rest().len() as int);
+    fn remaining(&self) -> (r: usize) ensures r == self.rest().len();
+    fn advance(&mut self, n: usize) requires n <= old(self).rest().len() ensures final(self).rest() == old(self).rest().subrange(n as int, old(self).rest().len() as int);
+}
+impl<'a> VBufSlice for &'a [u8] {
+    open spec fn rest(&self) -> Seq<u8> { (*self)@ }
+    #[verifier::external_body] fn get_u64(&mut self) -> (r: u64) { unimplemented!() }
+    #[verifier::external_body] fn get_u8(&mut self) -> (r: u8) { unimplemented!() }
+    #[verifier::external_body] fn remaining(&self) -> (r: usize) { unimplemented!() }
+    #[verifier::external_body] fn advance(&mut self, n: usize) { unimplemented!() }
+}
